@@ -8,16 +8,32 @@ Record bcase := {
   bc_vis : list link;                     (* blocks that travelled in the request *)
   bc_exec : list link;                    (* the message's execute list *)
   bc_handlers : list (bstr * N);          (* ability -> 0: handler returns a value, 1: returns an error *)
+  bc_fx : list (bstr * effects);          (* ability -> the effects its handler returns with its value (no entry: none) *)
   bc_server : did;
   ob_exec_err : bool;                     (* the request failed as a whole *)
   ob_rcpts : list (link * bool * rclass * link * bstr);   (* per execute entry: found, class, ran, issuer *)
+  ob_fx : list (link * effects);          (* per receipt found and decoded (keyed by the execute entry): the fork links in
+                                             order and the join written in its outcome *)
   ob_calls : list call;
   ob_nreceipts : N }.
 
+(* what the harness handler of an ability returns (batch.go sharedProvider) *)
+Definition handler_result (fxs : list (bstr * effects)) (e : bstr * N) : hres :=
+  if snd e =? 1 then HFail
+  else HOk (match slookup (fst e) fxs with Some fx => fx | None => no_fx end).
+
 Definition bc_srv (b : bcase) : server :=
   mkServer (bc_server b) (wc_ctx (bc_world b))
-    (map (fun e => mkHandler (fst e) (std_desc (fst e))
-                     (fun _ => if snd e =? 1 then HFail else HOk)) (bc_handlers b)).
+    (map (fun e => mkHandler (fst e) (std_desc (fst e)) (fun _ => handler_result (bc_fx b) e)) (bc_handlers b)).
+
+Definition olink_eqb (a b : option link) : bool :=
+  match a, b with
+  | Some x, Some y => x =? y
+  | None, None => true
+  | _, _ => false
+  end.
+Definition effects_eqb (a b : effects) : bool :=
+  list_eqb N.eqb (fst a) (fst b) && olink_eqb (snd a) (snd b).
 
 Definition rclass_eqb (a b : rclass) : bool :=
   match a, b with
@@ -45,7 +61,14 @@ Definition run_batch (b : bcase) : exec_result :=
   execute (wc_U (bc_world b)) fuel (bc_srv b) (bc_vis b) (bc_exec b).
 
 (* 0 agreement; 1 whole-request outcome; 2 a receipt missing/unexpected; 3 receipt class;
-   4 ran / issuer of a receipt; 5 handler calls; 6 number of receipts; 9 fuel *)
+   4 ran / issuer of a receipt; 5 handler calls; 6 number of receipts; 7 effects of a receipt
+   (fork links in order, join); 9 fuel *)
+Definition check_fx (rep : report) (obs : list (link * effects)) : bool :=
+  forallb (fun o => match rget (fst o) rep with
+                    | Some r => effects_eqb (rc_fx r) (snd o)
+                    | None => true       (* a missing receipt is code 2 *)
+                    end) obs.
+
 Definition check_batch (b : bcase) : N :=
   match run_batch b with
   | ExecFuel => 9
@@ -63,7 +86,8 @@ Definition check_batch (b : bcase) : N :=
     match filter (fun c => negb (c =? 0)) per with
     | c :: _ => c
     | [] => if negb (multiset_eqb call_eqb calls (ob_calls b)) then 5
-            else if negb (N.of_nat (length rep) =? ob_nreceipts b) then 6 else 0
+            else if negb (N.of_nat (length rep) =? ob_nreceipts b) then 6
+            else if negb (check_fx rep (ob_fx b)) then 7 else 0
     end
   end.
 
